@@ -117,7 +117,13 @@ func gen(r *hx.Rng, n int, tier string) []string {
 		if r.Bool() {
 			extra = r.Bytes(32)
 		}
+		if extra != nil && r.Chance(1, 6) { // boundary values of the optional field
+			extra = hx.Pick(r, [][]byte{make([]byte, 32), append(make([]byte, 31), 1), bytes.Repeat([]byte{0xff}, 32)})
+		}
 		blinding := r.Bytes(8)
+		if r.Chance(1, 10) {
+			blinding = hx.Pick(r, [][]byte{make([]byte, 8), bytes.Repeat([]byte{0xff}, 8)})
+		}
 		wpkh := r.Bytes(20)
 		rpkh := r.Bytes(20)
 		priv := genKey(r)
